@@ -385,16 +385,23 @@ var httpHealth = []int{0b111, 0b011, 0b100, 0b101, 0b000}
 type spVariant struct {
 	sp  string
 	dup int // > 0: the body carries the model member twice, padded to about this many bytes
+	pad int // > 0: an ordinary document (model member first, once) padded to about this many bytes
 }
 
 func spellingVariants(hm int) []spVariant {
 	var out []spVariant
 	for _, sp := range httpSpellings {
-		out = append(out, spVariant{sp, 0})
+		out = append(out, spVariant{sp, 0, 0})
 	}
 	if hm == 0b111 || hm == 0b011 {
 		for _, sp := range []string{"alpha", "gamma", "delta", "nope"} {
-			out = append(out, spVariant{sp, 24}, spVariant{sp, 70000}, spVariant{sp, 300000})
+			out = append(out, spVariant{sp, 24, 0}, spVariant{sp, 70000, 0}, spVariant{sp, 300000, 0})
+		}
+	}
+	if hm == 0b111 || hm == 0b101 {
+		// documents around the body inspector's 1 MiB: a long prompt or an inline picture names its model like any other
+		for _, sp := range []string{"delta", "gamma", "nope"} {
+			out = append(out, spVariant{sp, 0, 1<<20 - 4096}, spVariant{sp, 0, 1<<20 + 4096}, spVariant{sp, 0, 3 << 20})
 		}
 	}
 	return out
@@ -533,6 +540,9 @@ func runHTTPOnce(c *vlib.Cases, hc httpCfg, mu *sync.Mutex, last bool) bool {
 					pad := strings.Repeat("lorem ipsum ", dupKey/12)
 					body = []byte(`{"model":"` + decoy + `","messages":[{"role":"user","content":"` + pad + `"}],"model":"` + sp + `"}`)
 				}
+				if spx.pad > 0 {
+					body = []byte(`{"model":"` + sp + `","messages":[{"role":"user","content":"` + strings.Repeat("lorem ipsum ", spx.pad/12) + `"}]}`)
+				}
 				// every other request is sent with Transfer-Encoding: chunked (no declared length): the model named in
 				// the body must be routed the same way however the body is framed
 				httpSeq++
@@ -567,7 +577,7 @@ func runHTTPOnce(c *vlib.Cases, hc httpCfg, mu *sync.Mutex, last bool) bool {
 					"h_reason": h1(constants.HeaderXOllaRoutingReason), "h_endpoint": h1(constants.HeaderXOllaEndpoint)}
 				mu.Lock()
 				c.Emit(map[string]any{"kind": "http", "typ": hc.Typ, "fb": hc.Fb, "rom": hc.Rom, "engine": hc.Engine, "route": route,
-					"listings": listings, "healthy": ids(hm), "model": sp, "impl": impl})
+					"listings": listings, "healthy": ids(hm), "model": sp, "doc_len": len(body), "chunked": httpSeq%2 == 0, "impl": impl})
 				c.Count("http." + route)
 				mu.Unlock()
 			}
